@@ -506,6 +506,44 @@ def check_fp_ranges(rep, prog, fn):
     return n
 
 
+def check_dot_accumulator(rep, prog, fn):
+    """R18g: the accumulator of the dot product is reduced modulo p in every step: with acc in [0, p-1] at the head of an iteration it is back
+    in [0, p-1] at its end (inductive invariant checked with the interval interpreter).  An accumulator that only grows (`res += x * y`, one
+    reduction at the end) overflows the value type for large primes and many common coordinates."""
+    rets = ex.returns_of(fn)
+    if not rets or not rets[0].c:
+        return 0
+    acc = None
+    for x in [rets[0].c[0].strip_all()] + list(rets[0].c[0].walk()):
+        v = ex.var_of(x) if x.k == 'DeclRefExpr' else None
+        if v is not None and prog.vars[v]['kind'] == 'local':
+            acc = v
+            break
+    what = 'the dot-product accumulator is reduced modulo p in every step (stays within [0, p-1] across iterations)'
+    if acc is None:
+        rep.undecided('R18g', fn.body, fn, what, 'returned accumulator not found')
+        return 1
+    loops = [n for n in fn.body.c if n.k in ('WhileStmt', 'ForStmt')]
+    touched = [lp for lp in loops if any(d.k in ('BinaryOperator', 'CompoundAssignOperator', 'CXXOperatorCallExpr') and d.op in ('=', '+=', '*=', '-=') and
+                                         ex.var_of((d.c if d.k != 'CXXOperatorCallExpr' else d.c[1:])[0]) == acc for d in lp.walk())]
+    if not touched:
+        rep.undecided('R18g', fn.body, fn, what, 'no loop updates the accumulator')
+        return 1
+    for lp in touched:
+        interp = FpInterp(prog, fn, rep, 'R18g')
+        out = interp.run(lp.body, {acc: Iv(ZERO, (-1, 1))})
+        iv = (out or {}).get(acc)
+        if iv is None:
+            rep.undecided('R18g', lp, fn, what, 'loop body not interpretable')
+        elif b_le(ZERO, iv.lo) and b_le(iv.hi, (-1, 1)):
+            rep.ok('R18g', lp, fn, what, 'inductive: [0, p-1] at the head gives %r at the end of an iteration' % iv)
+        else:
+            rep.violation('R18g', lp, fn, what,
+                          'starting an iteration within [0, p-1] the accumulator ends it within %r: it is not reduced per step, so it grows with every common '
+                          'coordinate (up to (p-1)^2 each) and overflows the value type for built-in integers' % iv, key='R18g|%s|accumulator' % fn.g)
+    return 1
+
+
 # ================================================================================================ R18c merge tables for SpVecFP
 def check_fp_merge(rep, prog, fn, kind):
     what = 'SpVecFP %s is an index merge of two strictly increasing entry lists' % ('operator+' if kind == 'plus' else 'dot product')
@@ -746,6 +784,7 @@ def run_on(rep, prog):
                 pt = prog.base_type(prog.vars[fn.param_ids[0]]['ty']) or {}
                 if (pt.get('rec') or '') == 'parmcb::SpVecFP':
                     check_fp_merge(rep, prog, fn, 'dot')
+                    check_dot_accumulator(rep, prog, fn)
             if name in ('operator+=', 'operator*=', 'operator-='):
                 c17.check_compound(rep, prog, fn, rule='R18c')
     c17.check_copy_ops(rep, prog, 'parmcb::SpVecFP', 'R18c')
@@ -759,6 +798,7 @@ def run(rep, tier):
     rep.rule('R18d', 'is_prime constant-divisor shortcuts exclude the divisor itself', floor=1)
     rep.rule('R18e', 'get_mult_inverse contract', floor=1)
     rep.rule('R18f', 'trial division bound includes the square root', floor=1)
+    rep.rule('R18g', 'dot-product accumulator reduced in every step', floor=1)
     tus = [env.witness_tu()]
     if tier == 'thorough':
         tus += [t for t in env.repo_tus() if 'fp' in os.path.basename(t)]
@@ -774,7 +814,7 @@ def run(rep, tier):
         pp = env.extract([pos], 'full', ('first:-I' + os.path.join(env.WITNESS, 'positive', 'broken_include2'),))[pos]
         prep = type(rep)(rep.prop, rep.tier)
         run_on(prep, pp)
-        for r in ('R18a', 'R18b', 'R18c', 'R18d', 'R18e', 'R18f'):
+        for r in ('R18a', 'R18b', 'R18c', 'R18d', 'R18e', 'R18f', 'R18g'):
             rep.positive(r, 'witness/positive/c18_fp.cc', any(i.status == 'violation' and i.rule == r for i in prep.instances.values()))
     except env.AnalysisBroken as e:
         rep.analysis_broken('positive example c18_fp.cc does not parse: ' + str(e)[:300])
